@@ -274,10 +274,11 @@ PROPS = {
         "theorems": me_thms(["c13_mem_holds", "c13_mem_init", "c13_unavail_excluded_holds", "c13_noavail_holds", "c13_empty_holds", "reach_inv"]) +
                     [("GcpVerif.Proofs.ME2", "GcpVerif.ME." + n) for n in ["c13_switch_top_holds", "c13_d0_holds", "reach_J", "reach_K", "nextCur_d0", "nextCur_idem"]] +
                     [("GcpVerif.Proofs.ME6", "GcpVerif.ME." + n) for n in ["status_matches_reports", "status_matches_reports_run", "reach_sinv", "fire_av"]] +
-                    [("GcpVerif.Proofs.ME7", "GcpVerif.ME." + n) for n in ["list_and_priorities", "setEndpoints_list", "init_list", "vw_step", "reach_ids_nodup"]],
-        "leanchecker": ["GcpVerif.Proofs.ME", "GcpVerif.Proofs.ME2", "GcpVerif.Proofs.ME6", "GcpVerif.Proofs.ME7"],
+                    [("GcpVerif.Proofs.ME7", "GcpVerif.ME." + n) for n in ["list_and_priorities", "setEndpoints_list", "init_list", "vw_step", "reach_ids_nodup"]] +
+                    [("GcpVerif.Proofs.MEApi", "GcpVerif.ME." + n) for n in ["ReachApi.reachL", "ReachApi.reach", "api_list_and_priorities", "api_inv", "init_negative", "step_setEndpoints_dups"]],
+        "leanchecker": ["GcpVerif.Proofs.ME", "GcpVerif.Proofs.ME2", "GcpVerif.Proofs.ME6", "GcpVerif.Proofs.ME7", "GcpVerif.Proofs.MEApi"],
         "trusted_base": ME_TB,
-        "assumptions": ["0 <= RecoveryTimeout and 0 <= SwitchingDelay (negative durations are covered by the correspondence only)"],
+        "assumptions": ["none on the arguments: the machine theorems (Reach: 0 <= RecoveryTimeout, 0 <= SwitchingDelay, lists as given) are lifted to every integer duration and every list by ReachApi.reachL, because the API normalises its arguments first (F29, F30)"],
     },
     "C14": {
         "harnesses": ["me"], "lake_targets": ["GcpVerif"],
@@ -287,9 +288,10 @@ PROPS = {
                      ("GcpVerif.Proofs.ME4", "GcpVerif.ME.c14_cancel_holds"), ("GcpVerif.Proofs.ME4", "GcpVerif.ME.c14_converged_holds"),
                      ("GcpVerif.Proofs.ME4", "GcpVerif.ME.reach_V"),
                      ("GcpVerif.Proofs.ME6", "GcpVerif.ME.recovery_not_cut_short"), ("GcpVerif.Proofs.ME6", "GcpVerif.ME.reach_sinv"),
-                     ("GcpVerif.Proofs.ME7", "GcpVerif.ME.recovering_timer_count")],
-        "leanchecker": ["GcpVerif.Proofs.ME", "GcpVerif.Proofs.ME2", "GcpVerif.Proofs.ME3", "GcpVerif.Proofs.ME4", "GcpVerif.Proofs.ME6", "GcpVerif.Proofs.ME7"],
+                     ("GcpVerif.Proofs.ME7", "GcpVerif.ME.recovering_timer_count")] +
+                    [("GcpVerif.Proofs.MEApi", "GcpVerif.ME." + n) for n in ["ReachApi.reachL", "ReachApi.reach", "api_inv", "api_recovering_timer_count", "api_recovery_not_cut_short", "init_negative"]],
+        "leanchecker": ["GcpVerif.Proofs.ME", "GcpVerif.Proofs.ME2", "GcpVerif.Proofs.ME3", "GcpVerif.Proofs.ME4", "GcpVerif.Proofs.ME6", "GcpVerif.Proofs.ME7", "GcpVerif.Proofs.MEApi"],
         "trusted_base": ME_TB,
-        "assumptions": ["0 <= RecoveryTimeout and 0 <= SwitchingDelay (negative durations are covered by the correspondence only)"],
+        "assumptions": ["none on the arguments: the machine theorems (Reach: 0 <= RecoveryTimeout, 0 <= SwitchingDelay) are lifted to every integer duration and every list by ReachApi.reachL (F29, F30)"],
     },
 }
